@@ -757,7 +757,19 @@ def check_odeint(chk, project, tdir, neq):
                 # the same object is given another step budget (Reset) and Solve is called again in the same process state
                 if "mxsteps_" not in fo:
                     raise Inconclusive("class Naunet has no member mxsteps_")
-                st.store("this", fo["mxsteps_"], mx2)
+                # ... through the real Naunet::Reset where it can be executed (it is how every generated driver
+                # configures the budget), otherwise by writing the member
+                rname = next((n for n, d in dem.items() if (d or "").startswith("Naunet::Reset(")), None)
+                done = False
+                if rname is not None:
+                    try:
+                        M.run_function(rname, st, [Ptr("this", 0), 1, z3.Real("atol2"), z3.Real("rtol2"), mx2])
+                        done = True
+                        chk.functions.add(f"{tdir}:Naunet::Reset")
+                    except Inconclusive:
+                        done = False
+                if not done:
+                    st.store("this", fo["mxsteps_"], mx2)
                 n1 = len(seen)
                 _, ret2 = M.run_function(sname, st, [Ptr("this", 0), Ptr("ab", 0), dt, Ptr("udata", 0)])
         except Inconclusive as e:
